@@ -1,6 +1,443 @@
-//! C07 — not implemented yet.
+//! C07 — affine builders and Transform act on points as defined and chain in call order.
+
+use vek::mat::repr_c::column_major as cm;
+use vek::mat::repr_c::row_major as rm;
+use vek::quaternion::repr_c::Quaternion;
+use vek::transform::repr_c::Transform;
+use vek::vec::repr_c::{Vec2, Vec3, Vec4};
+use vkit::gens;
+use vkit::refmath as rf;
+use vkit::vk::{self, MatN};
 use vkit::*;
 
+const K: f64 = 1024.0;
+
+#[derive(Clone, Copy, Debug)]
+enum Step<S> {
+    Translate2([S; 2]),
+    Translate3([S; 3]),
+    Scale3([S; 3]),
+    Scale2([S; 2]),
+    RotX(S),
+    RotY(S),
+    RotZ(S),
+    Rot3(S, [S; 3], [S; 3]), // angle, axis as passed, exact unit axis
+    ShearX(S),
+    ShearY(S),
+}
+
+fn step_name<S>(s: &Step<S>) -> &'static str {
+    match s {
+        Step::Translate2(_) => "translate_2d",
+        Step::Translate3(_) => "translate_3d",
+        Step::Scale3(_) => "scale_3d",
+        Step::Scale2(_) => "scale_2d",
+        Step::RotX(_) => "rotate_x",
+        Step::RotY(_) => "rotate_y",
+        Step::RotZ(_) => "rotate_z",
+        Step::Rot3(..) => "rotate_3d",
+        Step::ShearX(_) => "shear_x",
+        Step::ShearY(_) => "shear_y",
+    }
+}
+
+/// What a step does to a 3D point / vector, by its definition (no matrices).
+fn apply3<S: Dom>(s: &Step<S>, p: &[S; 3], w: S) -> [S; 3] {
+    match s {
+        Step::Translate2(v) => [p[0] + v[0] * w, p[1] + v[1] * w, p[2]],
+        Step::Translate3(v) => [p[0] + v[0] * w, p[1] + v[1] * w, p[2] + v[2] * w],
+        Step::Scale3(k) => [p[0] * k[0], p[1] * k[1], p[2] * k[2]],
+        Step::RotX(a) => rf::rodrigues(p, &[S::one(), S::zero(), S::zero()], a.sin(), a.cos()),
+        Step::RotY(a) => rf::rodrigues(p, &[S::zero(), S::one(), S::zero()], a.sin(), a.cos()),
+        Step::RotZ(a) => rf::rodrigues(p, &[S::zero(), S::zero(), S::one()], a.sin(), a.cos()),
+        Step::Rot3(a, _, unit) => rf::rodrigues(p, unit, a.sin(), a.cos()),
+        _ => unreachable!(),
+    }
+}
+/// Mat3 chains act on R^3 with z as the homogeneous coordinate of translate_2d.
+fn apply3_h2<S: Dom>(s: &Step<S>, p: &[S; 3]) -> [S; 3] {
+    match s {
+        Step::Translate2(v) => [p[0] + v[0] * p[2], p[1] + v[1] * p[2], p[2]],
+        other => apply3(other, p, S::zero()),
+    }
+}
+fn apply2<S: Dom>(s: &Step<S>, p: &[S; 2]) -> [S; 2] {
+    match s {
+        Step::Scale2(k) => [p[0] * k[0], p[1] * k[1]],
+        Step::RotZ(a) => [a.cos() * p[0] - a.sin() * p[1], a.sin() * p[0] + a.cos() * p[1]],
+        Step::ShearX(k) => [p[0] + *k * p[1], p[1]],
+        Step::ShearY(k) => [p[0], p[1] + *k * p[0]],
+        _ => unreachable!(),
+    }
+}
+
+/// The matrix of a step, column by column from its definition on the basis vectors.
+fn matrix4<S: Dom>(s: &Step<S>) -> [[S; 4]; 4] {
+    let mut m = [[S::zero(); 4]; 4];
+    let (z, o) = (S::zero(), S::one());
+    for j in 0..3 {
+        let mut e = [z; 3];
+        e[j] = o;
+        let img = apply3(s, &e, z);
+        for i in 0..3 {
+            m[i][j] = img[i];
+        }
+    }
+    let origin = apply3(s, &[z; 3], o);
+    for i in 0..3 {
+        m[i][3] = origin[i];
+    }
+    m[3][3] = o;
+    m
+}
+fn matrix3<S: Dom>(s: &Step<S>) -> [[S; 3]; 3] {
+    let mut m = [[S::zero(); 3]; 3];
+    for j in 0..3 {
+        let mut e = [S::zero(); 3];
+        e[j] = S::one();
+        let img = apply3_h2(s, &e);
+        for i in 0..3 {
+            m[i][j] = img[i];
+        }
+    }
+    m
+}
+fn matrix2<S: Dom>(s: &Step<S>) -> [[S; 2]; 2] {
+    let mut m = [[S::zero(); 2]; 2];
+    for j in 0..2 {
+        let mut e = [S::zero(); 2];
+        e[j] = S::one();
+        let img = apply2(s, &e);
+        for i in 0..2 {
+            m[i][j] = img[i];
+        }
+    }
+    m
+}
+
+fn gen_axis<S: Dom>(t: &mut Tape) -> ([S; 3], [S; 3]) {
+    let (v, len) = gens::pythagorean3(t);
+    let l = S::q(t.int(1, 5), t.pick(&[1i64, 2, 3]));
+    ([S::i(v[0]) * l, S::i(v[1]) * l, S::i(v[2]) * l], [S::q(v[0], len), S::q(v[1], len), S::q(v[2], len)])
+}
+fn gen_step4<S: Dom>(t: &mut Tape) -> Step<S> {
+    match t.below(7) {
+        0 => Step::Translate2([S::any(t, 9), S::any(t, 9)]),
+        1 => Step::Translate3([S::any(t, 9), S::any(t, 9), S::any(t, 9)]),
+        2 => Step::Scale3([S::small(t, 5), S::small(t, 5), S::small(t, 5)]),
+        3 => Step::RotX(S::angle(t)),
+        4 => Step::RotY(S::angle(t)),
+        5 => Step::RotZ(S::angle(t)),
+        _ => {
+            let a = S::angle(t);
+            let (ax, u) = gen_axis::<S>(t);
+            Step::Rot3(a, ax, u)
+        }
+    }
+}
+fn gen_step3<S: Dom>(t: &mut Tape) -> Step<S> {
+    match t.below(6) {
+        0 => Step::Translate2([S::any(t, 9), S::any(t, 9)]),
+        1 => Step::Scale3([S::small(t, 5), S::small(t, 5), S::small(t, 5)]),
+        2 => Step::RotX(S::angle(t)),
+        3 => Step::RotY(S::angle(t)),
+        4 => Step::RotZ(S::angle(t)),
+        _ => {
+            let a = S::angle(t);
+            let (ax, u) = gen_axis::<S>(t);
+            Step::Rot3(a, ax, u)
+        }
+    }
+}
+fn gen_step2<S: Dom>(t: &mut Tape) -> Step<S> {
+    match t.below(4) {
+        0 => Step::RotZ(S::angle(t)),
+        1 => Step::Scale2([S::small(t, 5), S::small(t, 5)]),
+        2 => Step::ShearX(S::any(t, 5)),
+        _ => Step::ShearY(S::any(t, 5)),
+    }
+}
+
+fn noncommuting<S>(steps: &[Step<S>]) -> bool {
+    // at least two steps of different kinds, one of them a translation, rotation, shear or (non-uniform) scale
+    let kinds: std::collections::BTreeSet<&'static str> = steps.iter().map(step_name).collect();
+    kinds.len() >= 2
+}
+
+macro_rules! chain_cases {
+    ($f4:ident, $f3:ident, $f2:ident, $l:ident, $lname:expr) => {
+        fn $f4<S: Dom>(t: &mut Tape, cx: &mut Cx) -> CaseResult {
+            let n = t.below(9);
+            let start: [[S; 4]; 4] = if t.bool() { rf::identity() } else { vk::gen_mat(t, 3) };
+            let mut m = start;
+            let mut v = $l::Mat4::<S>::from_arr(&start);
+            let mut w = v;
+            let mut steps = Vec::new();
+            let p: [S; 3] = vk::gen_vec(t, 9);
+            let mut q = p;
+            let mut d = p;
+            let mut mag = vk::mat_max(&m).max(1.0);
+            for i in 0..n {
+                let s = gen_step4::<S>(t);
+                cx.label(step_name(&s));
+                let c = matrix4(&s);
+                m = rf::matmul(&c, &m);
+                mag = (mag * vk::mat_max(&c).max(1.0) * 4.0).max(1.0);
+                match s {
+                    Step::Translate2(a) => { v = v.translated_2d(vk::v2(&a)); w.translate_2d(vk::v2(&a)); }
+                    Step::Translate3(a) => { v = v.translated_3d(vk::v3(&a)); w.translate_3d(vk::v3(&a)); }
+                    Step::Scale3(a) => { v = v.scaled_3d(vk::v3(&a)); w.scale_3d(vk::v3(&a)); }
+                    Step::RotX(a) => { v = v.rotated_x(a); w.rotate_x(a); }
+                    Step::RotY(a) => { v = v.rotated_y(a); w.rotate_y(a); }
+                    Step::RotZ(a) => { v = v.rotated_z(a); w.rotate_z(a); }
+                    Step::Rot3(a, ax, _) => { v = v.rotated_3d(a, vk::v3(&ax)); w.rotate_3d(a, vk::v3(&ax)); }
+                    _ => unreachable!(),
+                }
+                check_mat!(cx, S, v.to_arr(), m, mag, K, "{} Mat4 after step {} ({}): value = constructor * previous", $lname, i + 1, step_name(&s));
+                check_eq!(cx, w.to_arr(), v.to_arr(), "{} Mat4 in-place twin after step {} ({})", $lname, i + 1, step_name(&s));
+                q = apply3(&s, &q, S::one());
+                d = apply3(&s, &d, S::zero());
+                steps.push(s);
+            }
+            cx.set_nontrivial(noncommuting(&steps));
+            sample!(cx, "{} {} Mat4 start={:?} steps={:?} p={:?}", S::NAME, $lname, start, steps, p);
+            // semantic: the chain applies its steps to a point in call order (only meaningful from the identity)
+            if start == rf::identity::<S, 4>() {
+                let pm = vk::vec_max(&p).max(1.0) * mag;
+                let img = rf::matvec(&v.to_arr(), &[p[0], p[1], p[2], S::one()]);
+                check_vec!(cx, S, [img[0], img[1], img[2]], q, pm, K, "{} Mat4 chain applied to a point in call order", $lname);
+                check_close!(cx, S, img[3], S::one(), 1.0, K, "{} Mat4 chain keeps w = 1", $lname);
+                let imd = rf::matvec(&v.to_arr(), &[p[0], p[1], p[2], S::zero()]);
+                check_vec!(cx, S, [imd[0], imd[1], imd[2]], d, pm, K, "{} Mat4 chain applied to a direction in call order", $lname);
+                check_vec!(cx, S, vk::a3(&v.mul_point(vk::v3(&p))), q, pm, K, "{} Mat4::mul_point", $lname);
+                check_vec!(cx, S, vk::a3(&v.mul_direction(vk::v3(&p))), d, pm, K, "{} Mat4::mul_direction", $lname);
+            }
+            Ok(())
+        }
+        fn $f3<S: Dom>(t: &mut Tape, cx: &mut Cx) -> CaseResult {
+            let n = t.below(9);
+            let start: [[S; 3]; 3] = if t.bool() { rf::identity() } else { vk::gen_mat(t, 3) };
+            let mut m = start;
+            let mut v = $l::Mat3::<S>::from_arr(&start);
+            let mut w = v;
+            let mut steps = Vec::new();
+            let p: [S; 3] = vk::gen_vec(t, 9);
+            let mut q = p;
+            let mut mag = vk::mat_max(&m).max(1.0);
+            for i in 0..n {
+                let s = gen_step3::<S>(t);
+                cx.label(step_name(&s));
+                let c = matrix3(&s);
+                m = rf::matmul(&c, &m);
+                mag = (mag * vk::mat_max(&c).max(1.0) * 3.0).max(1.0);
+                match s {
+                    Step::Translate2(a) => { v = v.translated_2d(vk::v2(&a)); w.translate_2d(vk::v2(&a)); }
+                    Step::Scale3(a) => { v = v.scaled_3d(vk::v3(&a)); w.scale_3d(vk::v3(&a)); }
+                    Step::RotX(a) => { v = v.rotated_x(a); w.rotate_x(a); }
+                    Step::RotY(a) => { v = v.rotated_y(a); w.rotate_y(a); }
+                    Step::RotZ(a) => { v = v.rotated_z(a); w.rotate_z(a); }
+                    Step::Rot3(a, ax, _) => { v = v.rotated_3d(a, vk::v3(&ax)); w.rotate_3d(a, vk::v3(&ax)); }
+                    _ => unreachable!(),
+                }
+                check_mat!(cx, S, v.to_arr(), m, mag, K, "{} Mat3 after step {} ({}): value = constructor * previous", $lname, i + 1, step_name(&s));
+                check_eq!(cx, w.to_arr(), v.to_arr(), "{} Mat3 in-place twin after step {} ({})", $lname, i + 1, step_name(&s));
+                q = apply3_h2(&s, &q);
+                steps.push(s);
+            }
+            cx.set_nontrivial(noncommuting(&steps));
+            sample!(cx, "{} {} Mat3 start={:?} steps={:?} p={:?}", S::NAME, $lname, start, steps, p);
+            if start == rf::identity::<S, 3>() {
+                let pm = vk::vec_max(&p).max(1.0) * mag;
+                check_vec!(cx, S, rf::matvec(&v.to_arr(), &p), q, pm, K, "{} Mat3 chain applied to a vector in call order", $lname);
+            }
+            Ok(())
+        }
+        fn $f2<S: Dom>(t: &mut Tape, cx: &mut Cx) -> CaseResult {
+            let n = t.below(9);
+            let start: [[S; 2]; 2] = if t.bool() { rf::identity() } else { vk::gen_mat(t, 3) };
+            let mut m = start;
+            let mut v = $l::Mat2::<S>::from_arr(&start);
+            let mut w = v;
+            let mut steps = Vec::new();
+            let p: [S; 2] = vk::gen_vec(t, 9);
+            let mut q = p;
+            let mut mag = vk::mat_max(&m).max(1.0);
+            for i in 0..n {
+                let s = gen_step2::<S>(t);
+                cx.label(step_name(&s));
+                let c = matrix2(&s);
+                m = rf::matmul(&c, &m);
+                mag = (mag * vk::mat_max(&c).max(1.0) * 2.0).max(1.0);
+                match s {
+                    Step::RotZ(a) => { v = v.rotated_z(a); w.rotate_z(a); }
+                    Step::Scale2(a) => { v = v.scaled_2d(vk::v2(&a)); w.scale_2d(vk::v2(&a)); }
+                    Step::ShearX(a) => { v = v.sheared_x(a); w.shear_x(a); }
+                    Step::ShearY(a) => { v = v.sheared_y(a); w.shear_y(a); }
+                    _ => unreachable!(),
+                }
+                check_mat!(cx, S, v.to_arr(), m, mag, K, "{} Mat2 after step {} ({}): value = constructor * previous", $lname, i + 1, step_name(&s));
+                check_eq!(cx, w.to_arr(), v.to_arr(), "{} Mat2 in-place twin after step {} ({})", $lname, i + 1, step_name(&s));
+                q = apply2(&s, &q);
+                steps.push(s);
+            }
+            cx.set_nontrivial(noncommuting(&steps));
+            sample!(cx, "{} {} Mat2 start={:?} steps={:?} p={:?}", S::NAME, $lname, start, steps, p);
+            if start == rf::identity::<S, 2>() {
+                let pm = vk::vec_max(&p).max(1.0) * mag;
+                check_vec!(cx, S, rf::matvec(&v.to_arr(), &p), q, pm, K, "{} Mat2 chain applied to a vector in call order", $lname);
+            }
+            Ok(())
+        }
+    };
+}
+chain_cases!(chain4_rows, chain3_rows, chain2_rows, rm, "row-major");
+chain_cases!(chain4_cols, chain3_cols, chain2_cols, cm, "col-major");
+
+/// Constructors by definition on points and directions; mul_point / mul_direction helpers.
+fn constructors<S: Dom>(t: &mut Tape, cx: &mut Cx) -> CaseResult {
+    let v3: [S; 3] = vk::gen_vec(t, 9);
+    let k3: [S; 3] = vk::gen_vec(t, 9);
+    let p: [S; 3] = vk::gen_vec(t, 9);
+    let k = S::any(t, 9);
+    let m: [[S; 4]; 4] = vk::gen_mat(t, 5);
+    let (z, o) = (S::zero(), S::one());
+    cx.set_nontrivial(v3.iter().all(|x| !x.is_zero()) && p.iter().all(|x| !x.is_zero()) && k3[0] != k3[1] && k3[1] != k3[2]);
+    sample!(cx, "{} v={:?} scale={:?} p={:?} k={:?} M={:?}", S::NAME, v3, k3, p, k, m);
+    let sc = vk::vec_max(&p).max(1.0) * vk::vec_max(&k3).max(vk::vec_max(&v3)).max(vk::mat_max(&m)).max(1.0) * 4.0;
+    macro_rules! layout {
+        ($l:ident, $n:expr) => {{
+            // Mat4 translation: moves points, leaves directions alone
+            let t3 = $l::Mat4::<S>::translation_3d(vk::v3(&v3)).to_arr();
+            check_eq!(cx, rf::matvec(&t3, &[p[0], p[1], p[2], o]), [p[0] + v3[0], p[1] + v3[1], p[2] + v3[2], o], "{} translation_3d * point", $n);
+            check_eq!(cx, rf::matvec(&t3, &[p[0], p[1], p[2], z]), [p[0], p[1], p[2], z], "{} translation_3d * direction", $n);
+            let t2 = $l::Mat4::<S>::translation_2d(Vec2 { x: v3[0], y: v3[1] }).to_arr();
+            check_eq!(cx, rf::matvec(&t2, &[p[0], p[1], p[2], o]), [p[0] + v3[0], p[1] + v3[1], p[2], o], "{} Mat4::translation_2d * point", $n);
+            check_eq!(cx, rf::matvec(&t2, &[p[0], p[1], p[2], z]), [p[0], p[1], p[2], z], "{} Mat4::translation_2d * direction", $n);
+            let s3 = $l::Mat4::<S>::scaling_3d(vk::v3(&k3)).to_arr();
+            check_eq!(cx, rf::matvec(&s3, &[p[0], p[1], p[2], o]), [p[0] * k3[0], p[1] * k3[1], p[2] * k3[2], o], "{} scaling_3d * point", $n);
+            check_eq!(cx, rf::matvec(&s3, &[p[0], p[1], p[2], z]), [p[0] * k3[0], p[1] * k3[1], p[2] * k3[2], z], "{} scaling_3d * direction", $n);
+            // Mat3
+            let t2m3 = $l::Mat3::<S>::translation_2d(Vec2 { x: v3[0], y: v3[1] }).to_arr();
+            check_eq!(cx, rf::matvec(&t2m3, &[p[0], p[1], o]), [p[0] + v3[0], p[1] + v3[1], o], "{} Mat3::translation_2d * point", $n);
+            check_eq!(cx, rf::matvec(&t2m3, &[p[0], p[1], z]), [p[0], p[1], z], "{} Mat3::translation_2d * direction", $n);
+            let s3m3 = $l::Mat3::<S>::scaling_3d(vk::v3(&k3)).to_arr();
+            check_eq!(cx, rf::matvec(&s3m3, &p), [p[0] * k3[0], p[1] * k3[1], p[2] * k3[2]], "{} Mat3::scaling_3d * v", $n);
+            // Mat2
+            let s2 = $l::Mat2::<S>::scaling_2d(Vec2 { x: k3[0], y: k3[1] }).to_arr();
+            check_eq!(cx, rf::matvec(&s2, &[p[0], p[1]]), [p[0] * k3[0], p[1] * k3[1]], "{} Mat2::scaling_2d * v", $n);
+            let hx = $l::Mat2::<S>::shearing_x(k).to_arr();
+            check_eq!(cx, rf::matvec(&hx, &[p[0], p[1]]), [p[0] + k * p[1], p[1]], "{} shearing_x(k) * (x,y) = (x + k y, y)", $n);
+            let hy = $l::Mat2::<S>::shearing_y(k).to_arr();
+            check_eq!(cx, rf::matvec(&hy, &[p[0], p[1]]), [p[0], p[1] + k * p[0]], "{} shearing_y(k) * (x,y) = (x, y + k x)", $n);
+            // point / direction helpers on an arbitrary matrix
+            let mm = $l::Mat4::<S>::from_arr(&m);
+            let wp = rf::matvec(&m, &[p[0], p[1], p[2], o]);
+            let wd = rf::matvec(&m, &[p[0], p[1], p[2], z]);
+            check_vec!(cx, S, vk::a3(&mm.mul_point(vk::v3(&p))), [wp[0], wp[1], wp[2]], sc, K, "{} mul_point = M*(p,1) without w", $n);
+            check_vec!(cx, S, vk::a3(&mm.mul_direction(vk::v3(&p))), [wd[0], wd[1], wd[2]], sc, K, "{} mul_direction = M*(d,0) without w", $n);
+            let r4: Vec4<S> = mm.mul_point(Vec4 { x: p[0], y: p[1], z: p[2], w: k });
+            check_vec!(cx, S, vk::a4(&r4), wp, sc, K, "{} mul_point on a Vec4 uses w = 1", $n);
+            let r4: Vec4<S> = mm.mul_direction(Vec4 { x: p[0], y: p[1], z: p[2], w: k });
+            check_vec!(cx, S, vk::a4(&r4), wd, sc, K, "{} mul_direction on a Vec4 uses w = 0", $n);
+            let m3a = [[m[0][0], m[0][1], m[0][2]], [m[1][0], m[1][1], m[1][2]], [m[2][0], m[2][1], m[2][2]]];
+            let m3 = $l::Mat3::<S>::from_arr(&m3a);
+            let wp2 = rf::matvec(&m3a, &[p[0], p[1], o]);
+            let wd2 = rf::matvec(&m3a, &[p[0], p[1], z]);
+            check_vec!(cx, S, vk::a2(&m3.mul_point_2d(Vec2 { x: p[0], y: p[1] })), [wp2[0], wp2[1]], sc, K, "{} mul_point_2d", $n);
+            check_vec!(cx, S, vk::a2(&m3.mul_direction_2d(Vec2 { x: p[0], y: p[1] })), [wd2[0], wd2[1]], sc, K, "{} mul_direction_2d", $n);
+        }};
+    }
+    layout!(rm, "row-major");
+    layout!(cm, "col-major");
+    Ok(())
+}
+
+/// Mat4::from(Transform): p -> position + orientation * (scale . p); default Transform is the identity.
+fn transform<S: Dom>(t: &mut Tape, cx: &mut Cx) -> CaseResult {
+    // unit orientation: rational point of S^3 (exact in Rat)
+    let (a, b, c) = (S::small(t, 5), S::small(t, 5), S::small(t, 5));
+    let n = a * a + b * b + c * c;
+    let d = S::one() + n;
+    let two = S::i(2);
+    let q = Quaternion { w: (S::one() - n) / d, x: two * a / d, y: two * b / d, z: two * c / d };
+    let position: [S; 3] = vk::gen_vec(t, 9);
+    let scale = if t.chance(48) { let s = S::small(t, 5); [s, s, s] } else { [S::small(t, 5), S::small(t, 5), S::small(t, 5)] };
+    let p: [S; 3] = vk::gen_vec(t, 9);
+    let nonuniform = scale[0] != scale[1] || scale[1] != scale[2];
+    if nonuniform { cx.label("non-uniform-scale") } else { cx.label("uniform-scale") }
+    let axis_aligned = [q.x, q.y, q.z].iter().filter(|x| !x.is_zero()).count() <= 1;
+    cx.set_nontrivial(nonuniform && !axis_aligned);
+    sample!(cx, "{} position={:?} orientation(w,x,y,z)={:?} scale={:?} p={:?}", S::NAME, position, [q.w, q.x, q.y, q.z], scale, p);
+    // oracle: rotate (scale . p) by q (reference Hamilton product), then add position
+    let sp = [p[0] * scale[0], p[1] * scale[1], p[2] * scale[2]];
+    let qa = [q.w, q.x, q.y, q.z];
+    let pv = [S::zero(), sp[0], sp[1], sp[2]];
+    let r = rf::hamilton(&rf::hamilton(&qa, &pv), &[q.w, -q.x, -q.y, -q.z]);
+    let want = [position[0] + r[1], position[1] + r[2], position[2] + r[3]];
+    let xf = Transform { position: vk::v3(&position), orientation: q, scale: vk::v3(&scale) };
+    let sc = vk::vec_max(&p).max(1.0) * vk::vec_max(&scale).max(1.0) * 4.0 + vk::vec_max(&position);
+    for (name, m) in [("row-major", rm::Mat4::<S>::from(xf).to_arr()), ("col-major", cm::Mat4::<S>::from(xf).to_arr())] {
+        let img = rf::matvec(&m, &[p[0], p[1], p[2], S::one()]);
+        let got = [img[0], img[1], img[2]];
+        let ok = (0..3).all(|i| vkit::dom::close::<S>(cx, got[i], want[i], sc, K));
+        if !ok {
+            // the one specific wrong map of finding F3: scale applied after the rotation (T*S*R)
+            let pr = rf::hamilton(&rf::hamilton(&qa, &[S::zero(), p[0], p[1], p[2]]), &[q.w, -q.x, -q.y, -q.z]);
+            let f3 = [position[0] + pr[1] * scale[0], position[1] + pr[2] * scale[1], position[2] + pr[3] * scale[2]];
+            let is_f3 = (0..3).all(|i| vkit::dom::close::<S>(cx, got[i], f3[i], sc, K));
+            if is_f3 && cx.known("F3-transform-scale-after-rotation") {
+                cx.label("known:F3");
+            } else {
+                fail!("{} Mat4::from(Transform) maps p to {:?}, want position + orientation*(scale.p) = {:?}", name, got, want);
+            }
+        }
+        check_close!(cx, S, img[3], S::one(), 1.0, K, "{} Mat4::from(Transform) keeps w = 1", name);
+        check_eq!(cx, m[3], [S::zero(), S::zero(), S::zero(), S::one()], "{} Mat4::from(Transform) is affine", name);
+    }
+    // default Transform -> identity map
+    let idt: Transform<S, S, S> = Transform::default();
+    check_eq!(cx, rm::Mat4::<S>::from(idt).to_arr(), rf::identity::<S, 4>(), "row-major Mat4::from(Transform::default())");
+    check_eq!(cx, cm::Mat4::<S>::from(idt).to_arr(), rf::identity::<S, 4>(), "col-major Mat4::from(Transform::default())");
+    check_eq!(cx, (vk::a3(&idt.position), [idt.orientation.w, idt.orientation.x, idt.orientation.y, idt.orientation.z], vk::a3(&idt.scale)), ([S::zero(); 3], [S::one(), S::zero(), S::zero(), S::zero()], [S::one(); 3]), "Transform::default fields");
+    let _ = Vec3::<S>::zero();
+    Ok(())
+}
+
 pub fn property() -> Property {
-    Property { id: "C07", rule: "", assumptions: &[], checks: Vec::new(), max_discard_frac: 0.2 }
+    let mut checks = Vec::new();
+    macro_rules! tape {
+        ($name:expr, $about:expr, $len:expr, $q:expr, $th:expr, $f:expr) => {
+            checks.push(Check { name: $name, about: $about, kind: Kind::Tape { len: $len, quick: $q, thorough: $th, f: $f } });
+        };
+    }
+    let c4 = "Mat4 builder chains (0-8 steps over translated_2d/3d, scaled_3d, rotated_x/y/z/3d): after each step value = definition-matrix * previous; in-place twin identical; final matrix applied to a point / direction = the steps applied in call order by their definitions; mul_point/mul_direction";
+    let c3 = "Mat3 builder chains (translated_2d, scaled_3d, rotated_x/y/z/3d): same three oracles";
+    let c2 = "Mat2 builder chains (rotated_z, scaled_2d, sheared_x, sheared_y): same three oracles";
+    tape!("chain4-rows-rat", c4, 160, 10_000, 300_000, chain4_rows::<Rat>);
+    tape!("chain4-cols-rat", c4, 160, 10_000, 300_000, chain4_cols::<Rat>);
+    tape!("chain3-rows-rat", c3, 160, 10_000, 300_000, chain3_rows::<Rat>);
+    tape!("chain3-cols-rat", c3, 160, 10_000, 300_000, chain3_cols::<Rat>);
+    tape!("chain2-rows-rat", c2, 96, 20_000, 400_000, chain2_rows::<Rat>);
+    tape!("chain2-cols-rat", c2, 96, 20_000, 400_000, chain2_cols::<Rat>);
+    tape!("chain4-rows-f64", c4, 256, 20_000, 400_000, chain4_rows::<f64>);
+    tape!("chain4-cols-f64", c4, 256, 20_000, 400_000, chain4_cols::<f64>);
+    tape!("chain3-cols-f64", c3, 256, 20_000, 400_000, chain3_cols::<f64>);
+    tape!("chain2-rows-f32", c2, 128, 20_000, 400_000, chain2_rows::<f32>);
+    let k = "translation/scaling/shear constructors act on points and directions by definition; mul_point/mul_direction(_2d) use w=1 / w=0; Mat2/3/4, both layouts";
+    tape!("constructors-rat", k, 96, 30_000, 600_000, constructors::<Rat>);
+    tape!("constructors-f64", k, 192, 20_000, 400_000, constructors::<f64>);
+    let x = "Mat4::from(Transform) maps p to position + orientation*(scale . p) (reference quaternion action), both layouts; Transform::default is the identity map";
+    tape!("transform-rat", x, 48, 30_000, 600_000, transform::<Rat>);
+    tape!("transform-f64", x, 96, 20_000, 400_000, transform::<f64>);
+    Property {
+        id: "C07",
+        rule: "builder chains of 0-8 generated steps (arguments: small rationals / floats, registered angles, Pythagorean axes) starting from the identity or a random matrix; Transform with rational unit quaternion, mostly non-uniform scale; non-trivial = chain with >= 2 different kinds of step / non-uniform scale with a non-axis-aligned rotation / all parameters non-zero and pairwise different scales; distinct = distinct consumed tape prefix",
+        assumptions: &[
+            "rustc and the proptest runner/shrinker are trusted",
+            "oracle: each step's action on a point written from its definition (translation adds, scaling multiplies per axis, shear adds k times the other coordinate, rotation by the axis-angle formula); its matrix is assembled from the images of the basis vectors",
+            "float tolerance 1024*eps*(product of step magnitudes)",
+        ],
+        checks,
+        max_discard_frac: 0.1,
+    }
 }
